@@ -134,10 +134,10 @@ Expect ==
          X(Ev.s, SharedFillable(p.d), FoldFill(p.c, p.d, Ev.rows, NumpyWs), p.d, p.mut, FALSE, "strip")
     [] op \in {"Add", "Combine"} ->
          LET a == pool[Ev.a] b == pool[Ev.b] ok == CompatD(a.d, b.d) IN
-         X(Ev.t, ~ok, IF ok THEN Merge(a.c, b.c) ELSE a.c, a.d, a.mut, TRUE, "det")
+         X(Ev.t, ~ok, IF ok THEN Merge(a.c, b.c) ELSE a.c, a.d, a.mut /\ b.mut, TRUE, "det")
     [] op = "IAdd" ->
          LET a == pool[Ev.a] b == pool[Ev.b] ok == CompatD(a.d, b.d) IN
-         X(Ev.a, ~ok, IF ok THEN Merge(a.c, b.c) ELSE a.c, a.d, a.mut, FALSE, "det")
+         X(Ev.a, ~ok, IF ok THEN Merge(a.c, b.c) ELSE a.c, a.d, a.mut /\ b.mut, FALSE, "det")
     [] op = "Mul" ->
          (* a transformed Count cannot be rescaled: for f > 0 the call must raise; for f <= 0 / NaN
             the result is the empty aggregator, and raising is tolerated as well *)
